@@ -28,10 +28,12 @@ type Transaction struct {
 	Description string
 	Payee       string
 	Note        string
-	Postings    []Posting
-	Tags        []Tag
-	Comments    []Comment
-	Range       Range
+	// PayeeRange is where the payee (without one: the description) stands in the header.
+	PayeeRange Range
+	Postings   []Posting
+	Tags       []Tag
+	Comments   []Comment
+	Range      Range
 }
 
 type Date struct {
